@@ -150,6 +150,8 @@ def change_ignored(bp, k, r):
     elif isinstance(base, tuple) and base[0] == "list":
         cands2 = [j for j in range(k) if not spec()[bp["nodes"][j]["cls"]]["task"] and _no_pretask_below(bp, j)]
         v = [{"ref": j} for j in cands2[: (x % 3)]]
+        if isinstance(base[1], tuple):  # list of lists of configurations
+            v = [v, []] if x % 2 else [v]
     else:
         return None
     if _args(node).get(p, "__unset__") == v or _holds_meta_false(bp, _args(node).get(p)):
@@ -167,6 +169,7 @@ def _holds_meta_false(bp, v):
 
 CFG_LISTS = {"Node": ["others", "more"], "T": ["ins"], "TOut": ["ins"], "TInner": ["ins"]}
 CFG_DICTS = {"Node": ["named"], "T": ["dct"]}
+CFG_NESTED = {"Node": ["nl", "dlc", "ldc"]}
 
 
 def _no_pretask_below(bp, j):
@@ -201,6 +204,32 @@ def insert_meta_member(bp, k, r):
     else:
         cur = copy.deepcopy(have.get(p) or [])
         cur.insert(r[3 % len(r)] % (len(cur) + 1), {"ref": j})
+    _set_arg(node, p, cur)
+    return bp
+
+
+@neutral
+def insert_meta_nested(bp, k, r):
+    """A configuration flagged as meta is inserted into an *inner* list or dict of a nested container"""
+    node = bp["nodes"][k]
+    metas = _meta_nodes(bp, k)
+    params = [p for p in CFG_NESTED.get(node["cls"], []) if p not in _patched(bp, k)]
+    have = _args(node)
+    params = [p for p in params if have.get(p) and (have[p]["dict"] if isinstance(have[p], dict) else have[p])]
+    p = _pick(params, r, 0)
+    j = _pick(metas, r, 1)
+    if p is None or j is None:
+        return None
+    cur = copy.deepcopy(have[p])
+    inners = [e[1] for e in cur["dict"]] if isinstance(cur, dict) else cur
+    inner = inners[r[2 % len(r)] % len(inners)]
+    if isinstance(inner, dict):
+        key = "meta%d" % (r[3 % len(r)] % 5)
+        if any(kk == key for kk, _ in inner["dict"]):
+            return None
+        inner["dict"].insert(r[4 % len(r)] % (len(inner["dict"]) + 1), [key, {"ref": j}])
+    else:
+        inner.insert(r[4 % len(r)] % (len(inner) + 1), {"ref": j})
     _set_arg(node, p, cur)
     return bp
 
